@@ -175,6 +175,51 @@ class Model:
                 'correct': a.get('correct'), 'score': a.get('score'), 'category': a.get('category'),
                 'scores': list(a.get('_scores', []))}
 
+    def run_driver(self, resolve_fn, cfgs, ranks, with_ignored=True):
+        """Abstractly run a resolver module's resolve(report, priority_key) on a small report; the key function is a
+        symbolic rank. Returns the result dict (or, for the sectional resolver, that of the only group)."""
+        fd, final0 = self.new_final({}, {})
+        fbs = []
+        for cfg, rank in zip(cfgs, ranks):
+            o = self.make_feedback(cfg)
+            o.attrs['__rank__'] = rank
+            o.attrs.setdefault('parent', None)
+            fbs.append(o)
+        report = Obj('report', suppressions={}, suppressed_labels={}, resolves=[], result=None,
+                     feedback=[o for o in fbs if truth(o)], ignored_feedback=[o for o in fbs if not truth(o)])
+        report.attrs['method:finalize_feedbacks'] = lambda: None
+        report.attrs['method:execute_hooks'] = lambda *a, **k: None
+        finals = []
+
+        def fresh_final(rep):
+            # set_correct_no_errors(report): a new FinalFeedback each time it is called
+            fd2, final = self.new_final(rep.attrs.get('suppressions', {}), rep.attrs.get('suppressed_labels', {}))
+            final.attrs['__fd__'] = fd2
+            finals.append(final)
+            return final
+        fd.calls['set_correct_no_errors'] = fresh_final
+        fd.methods['merge'] = lambda recv, fb: recv.attrs['__fd__'].call_function(self.merge_fn, [fb], bound_self=recv)
+        fd.methods['finalize'] = lambda recv: recv.attrs['__fd__'].call_function(self.finalize_fn, [], bound_self=recv)
+        key = lambda fb: fb.attrs['__rank__']
+        try:
+            out = fd.call_function(resolve_fn, [report, key])
+        except Raised as r:
+            return ('raised', r.kind, r.detail)
+        if isinstance(out, dict):
+            if len(out) > 1:
+                raise Inconclusive('driver: more than one group for ungrouped feedback')
+            out = list(out.values())[0] if out else None
+            if out is None:
+                # sectional resolver with no triggered feedback: no group at all
+                return {'label': self.default_label, 'correct': True, 'score': 1}
+        if not isinstance(out, Obj):
+            return ('raised', 'TypeError', 'resolve returned %r instead of the final feedback' % (out,))
+        if report.attrs.get('result') is None or not report.attrs.get('resolves'):
+            return ('raised', 'AssertionError', 'resolve does not store the result on the report')
+        a = out.attrs
+        return {'label': a.get('label'), 'title': a.get('title'), 'message': a.get('message'),
+                'correct': a.get('correct'), 'score': a.get('score'), 'category': a.get('category')}
+
     # -- oracle (transcribed from C01/C02/C03) ---------------------------------------------------
     def suppressed(self, cfg, suppressions, suppressed_labels):
         cat = (cfg['category'] or '').lower()
